@@ -11,6 +11,8 @@
 #include <sstream>
 #include <string>
 #include <vector>
+#include <iterator>
+#include <cstdlib>
 #include <unistd.h>
 #include "hexsim.hpp"
 struct HexVerifAccess {};
@@ -25,7 +27,18 @@ static std::string writeImage(const char *name, const std::vector<uint8_t> &code
   return name;
 }
 
+// every heap block handed out while a Processor is built/loaded is pre-filled with `g_fill` (dirty host heap)
+static uint8_t g_fill = 0; static bool g_fill_on = false;
+void *operator new(size_t n) { void *p = malloc(n ? n : 1); if (!p) throw std::bad_alloc(); if (g_fill_on) memset(p, g_fill, n); return p; }
+void *operator new[](size_t n) { void *p = malloc(n ? n : 1); if (!p) throw std::bad_alloc(); if (g_fill_on) memset(p, g_fill, n); return p; }
+void operator delete(void *p) noexcept { free(p); }
+void operator delete[](void *p) noexcept { free(p); }
+void operator delete(void *p, size_t) noexcept { free(p); }
+void operator delete[](void *p, size_t) noexcept { free(p); }
+
 static int runOn(uint8_t fill, const std::string &file, size_t maxCycles, std::string &out) {
+  g_fill = fill; g_fill_on = true;
+  struct Off { ~Off() { g_fill_on = false; } } off;
   void *raw = ::operator new(sizeof(hexsim::Processor));
   memset(raw, fill, sizeof(hexsim::Processor));
   std::istringstream in; std::ostringstream os;
@@ -49,11 +62,21 @@ int main(int argc, char **argv) {
   std::string o;
   int a1 = runOn(0xA5, f1, 0, o), b1 = runOn(0x00, f1, 0, o);
   int a2 = runOn(0xA5, f2, 50, o), b2 = runOn(0x00, f2, 50, o), c2 = runOn(0x3C, f2, 50, o);
+  // (3) a binary cut short: the header announces 14 words, the file holds 10; the program prints and exits with words
+  //     that are missing from the file (they must read as zero whatever the heap holds)
+  std::vector<uint8_t> p3 = {0x97, 0, 0, 0, 0xFF, 0x3F, 0, 0,            // BR +7 ; DATA 16383 (sp)
+                             0x11, 0x36, 0x66, 0x82, 0x30, 0xD3,         // LDBM 1; LDAC 6; LDAI 6 (table[6]=word 12); STAI 2; LDAC 0; OPR SVC -> exit(mem[12])
+                             0, 0};
+  while (p3.size() < 56) p3.push_back(0);
+  std::string f3 = writeImage("p3.bin", p3);
+  { std::ifstream in("p3.bin", std::ios::binary); std::vector<char> all((std::istreambuf_iterator<char>(in)), std::istreambuf_iterator<char>()); std::ofstream o2("p3s.bin", std::ios::binary); o2.write(all.data(), 44); }
+  int a3 = runOn(0xA5, "p3s.bin", 1000, o), b3 = runOn(0x00, "p3s.bin", 1000, o), c3 = runOn(0x5C, "p3s.bin", 1000, o), d3 = runOn(0xA5, "p3.bin", 1000, o);
   std::string why;
-  if (a1 != b1) why = "exit value of a program reading an unwritten word differs with host memory";
+  if (a3 != b3 || a3 != c3 || a3 != d3) why = "exit value of a binary cut short depends on host heap contents";
+  else if (a1 != b1) why = "exit value of a program reading an unwritten word differs with host memory";
   else if (a1 != 0) why = "unwritten memory does not read as zero";
   else if (a2 != b2 || a2 != c2) why = "status of a cycle-limited run differs with host memory";
-  printf("{\"ok\": %s, \"why\": \"%s\", \"unwritten_read_exit\": [%d, %d], \"cycle_limit_status\": [%d, %d, %d]}\n", why.empty() ? "true" : "false", why.c_str(), a1, b1, a2, b2, c2);
+  printf("{\"ok\": %s, \"why\": \"%s\", \"unwritten_read_exit\": [%d, %d], \"cycle_limit_status\": [%d, %d, %d], \"short_file_exit\": [%d, %d, %d, %d]}\n", why.empty() ? "true" : "false", why.c_str(), a1, b1, a2, b2, c2, a3, b3, c3, d3);
   if (d) { chdir("/"); std::string c = std::string("rm -rf ") + d; system(c.c_str()); }
   return why.empty() ? 0 : 1;
 }
